@@ -1001,6 +1001,9 @@ fn fmt_list(items: Vec<String>) -> String {
 
 async fn foreign(a: &[String]) -> Vec<String> {
     let live_sid: u64 = arg(a, 2).parse().unwrap_or(0);
+    // optional: the application asks for datagrams only after this long — whatever arrived
+    // meanwhile is already queued when `receive_datagram` is first called
+    let dgram_late_ms: u64 = arg(a, 3).parse().unwrap_or(0).min(5000);
     let kinds: Vec<String> = if arg(a, 1).is_empty() || arg(a, 1) == "-" {
         vec![]
     } else {
@@ -1096,6 +1099,9 @@ async fn foreign(a: &[String]) -> Vec<String> {
         });
         let (c, s, mut stop) = (conn.clone(), sh2.clone(), stop_rx.clone());
         let dgram_loop = tokio::spawn(async move {
+            if dgram_late_ms > 0 {
+                tokio::time::sleep(Duration::from_millis(dgram_late_ms)).await;
+            }
             loop {
                 tokio::select! {
                     r = c.receive_datagram() => match r {
@@ -1453,6 +1459,13 @@ fn gen_c08(thorough: bool, rng: &mut Rng, emit: &mut dyn FnMut(&str, Vec<String>
 fn gen_c17(thorough: bool, rng: &mut Rng, emit: &mut dyn FnMut(&str, Vec<String>)) {
     let all = ["uni8", "bi8", "dgram8", "uni4", "bi4", "dgram4"];
     let mut flip = rng.below(2) as usize;
+    // datagrams that are already queued when the application first asks for one
+    for kinds in ["dgram4", "dgram8", "dgram4,dgram8", "uni4,dgram4", "dgram8,bi8,dgram4"] {
+        for rt in RTS {
+            emit("foreign", vec![s(rt), s(kinds), s(0), s(400)]);
+        }
+    }
+    emit("foreign", vec![s("mt"), s("dgram4,dgram8"), s(12), s(400)]);
     // every ordered selection of distinct kinds of size 1, 2, 3
     for a in 0..6 {
         for rt in RTS {
